@@ -11,6 +11,9 @@ def sh(cmd, **kw):
 
 def main():
     only = sys.argv[1:]
+    exact = False
+    if only and only[0] == '--exact':  # the arguments are whole mutant names (used by tools/parcorpus.sh)
+        exact, only = True, only[1:]
     dirty = sh(f"git -C {REPO} status --porcelain --untracked-files=no").stdout.strip()
     if dirty:
         print("refusing: /repo has uncommitted changes to tracked files:\n" + dirty); return 2
@@ -20,7 +23,9 @@ def main():
     for f in files:
         m = json.load(open(f))
         name = os.path.basename(f)[:-5]
-        if only and not any(o in name or o in m.get('props', []) for o in only):
+        if exact and name not in only:
+            continue
+        if not exact and only and not any(o in name or o in m.get('props', []) for o in only):
             continue
         try:
             edits = m['edits'] if 'edits' in m else [m]
